@@ -656,6 +656,17 @@ Proof.
     + apply desc_upd; auto. intros s0. destruct es; reflexivity.
 Qed.
 
+Lemma rc_peer_headers : forall I c x sid es, RC I c x -> rc_ok I c x (EPeerHeaders sid es).
+Proof.
+  intros I c x sid es H. unfold rc_ok. cbn [conn_step].
+  destruct (find_cs sid (cc_streams c)) as [s|]; [|exact H].
+  destruct (cs_forgotten s || cs_peer_reset s || cs_peer_ended s); [exact H|].
+  cbn [fst snd fold_left rx_step]. destruct x as [[cw ciw] l].
+  eapply RC_upd_mono; [exact H| | | | |reflexivity]; try reflexivity.
+  intros s0. destruct es; unfold open_rx, live; cbn; repeat split; auto;
+    intros; rewrite ?andb_false_r in *; try discriminate.
+Qed.
+
 Theorem rc_step : forall I c x e, RC I c x -> rc_ok I c x e.
 Proof.
   intros I c x e H. destruct e.
@@ -671,4 +682,5 @@ Proof.
   - apply rc_peer_data; assumption.
   - apply rc_app_read; assumption.
   - apply rc_app_close; assumption.
+  - apply rc_peer_headers; assumption.
 Qed.
